@@ -534,6 +534,9 @@ def big_field(ctx: Ctx):
 def check(ctx: Ctx) -> None:
     ctx.guard("R20.5", "xtce/definitions.py", packet_state, ctx)
     ctx.guard("R20.5", "xtce/definitions.py", big_field, ctx)
+    # "additionally carries the raw encoded value": for enumerated and boolean items that is the value read from the packet (C08's table)
+    from .c08 import enum_bool
+    ctx.guard("R20.raw", "xtce/parameter_types.py", enum_bool, ctx, Harness(ctx.prog), "R20.raw")
     ctx.guard("R20.1", CM, base_table, ctx)
     ctx.guard("R20.2", CM, constructor, ctx)
     ctx.guard("R20.3", CM, hooks, ctx)
@@ -575,7 +578,7 @@ SPEC = PropSpec(
     pid="C20",
     title="Parsed values are drop-in built-ins with a raw value and survive copying",
     check=check,
-    floors={"R20.5": 3, "R20.1": 5, "R20.2": 6, "R20.3": 9, "R20.4": 6, "R20.e": 20},
+    floors={"R20.raw": 3, "R20.5": 3, "R20.1": 5, "R20.2": 6, "R20.3": 9, "R20.4": 6, "R20.e": 20},
     explanation=("Class-shape rules over the value classes, CCSDSPacket and RawPacketData: base table (mixin first, one "
                  "matching built-in), decision table of the constructor hook by abstract interpretation for every "
                  "class x falsy/ordinary value x raw omitted/falsy/ordinary (raw chosen by `is None`, value forwarded), "
